@@ -304,6 +304,9 @@ func (e *hamEval) stmt(st ast.Stmt) {
 	case *ast.BlockStmt:
 		e.block(s.List)
 	default:
+		if emptyDefer(st) {
+			return
+		}
 		e.bad("statement %T not modelled", st)
 	}
 }
